@@ -264,6 +264,12 @@ func c16Specs(thorough bool, fn func(s ttSpec)) {
 					for _, sw := range spanWidths {
 						for _, al := range []string{"L", "C", "R"} {
 							for _, mg := range margins {
+								if sw == 0 && strings.HasSuffix(mg, " ") {
+									// An empty value behind a margin that itself ends in a blank is the caller
+									// asking for a trailing blank (texttab prints a non-blank margin of an empty
+									// cell on purpose: benchtab's right-edge marker " │"); outside the property.
+									continue
+								}
 								hdr := ttCell{Row: 0, Col: start, Span: span, Width: sw, Align: al, Margin: mg}
 								for sh := 0; sh < 16; sh++ {
 									shrink := []bool{sh&1 != 0, sh&2 != 0, sh&4 != 0, sh&8 != 0}
@@ -377,24 +383,51 @@ func c16Texttab(c *mc.Check) {
 
 // ---- KeyHeader ----
 
-func c16CheckHeader(seq []int) string {
+// c16HeaderExprs: projections whose flattened field order equals the order
+// in which the fields were created, and projections where it does not (a
+// .config group in front of a field named in the expression: the named field
+// is created at parse time, the group's keys when they are first seen).
+var c16HeaderExprs = []string{"f1,f2,f3", ".config,/f3", "f3,.config", ".config,.name"}
+
+type c16HeaderCase struct {
+	Expr int
+	Seq  []int
+}
+
+// A key kind k encodes f1 ∈ {a,b} (bit 0), f2 ∈ {a,b,missing} (k/2 % 3), f3 ∈ {a,b} (k/6).
+const c16HeaderKinds = 12
+
+func c16CheckHeader(ei int, seq []int) string {
+	expr := c16HeaderExprs[ei]
 	var pp benchproc.ProjectionParser
-	proj, err := pp.Parse("f1,f2,f3", nil)
+	proj, err := pp.Parse(expr, nil)
 	if err != nil {
 		return err.Error()
 	}
 	var keys []benchproc.Key
-	vals := make([][3]string, len(seq))
+	valsByName := make([]map[string]string, len(seq))
 	for i, k := range seq {
+		v1 := []string{"a", "b"}[k%2]
+		v2 := []string{"a", "b", ""}[k/2%3]
+		v3 := []string{"a", "b"}[k/6%2]
 		r := &benchfmt.Result{Name: benchfmt.Name("X"), Values: []benchfmt.Value{{Value: 1, Unit: "u"}}}
-		for fi, name := range []string{"f1", "f2", "f3"} {
-			v := "a"
-			if k&(1<<fi) != 0 {
-				v = "b"
-			}
-			vals[i][fi] = v
-			r.Config = append(r.Config, benchfmt.Config{Key: name, Value: []byte(v), File: true})
+		m := map[string]string{"f1": v1, "f2": v2}
+		r.Config = append(r.Config, benchfmt.Config{Key: "f1", Value: []byte(v1), File: true})
+		if v2 != "" {
+			r.Config = append(r.Config, benchfmt.Config{Key: "f2", Value: []byte(v2), File: true})
 		}
+		switch expr {
+		case ".config,/f3":
+			r.Name = benchfmt.Name("X/f3=" + v3)
+			m["/f3"] = v3
+		case ".config,.name":
+			r.Name = benchfmt.Name("X" + v3)
+			m[".name"] = "X" + v3
+		default:
+			r.Config = append(r.Config, benchfmt.Config{Key: "f3", Value: []byte(v3), File: true})
+			m["f3"] = v3
+		}
+		valsByName[i] = m
 		keys = append(keys, proj.Project(r))
 	}
 	h := benchproc.NewKeyHeader(keys)
@@ -405,8 +438,20 @@ func c16CheckHeader(seq []int) string {
 		}
 		return ""
 	}
-	if len(h.Levels) != 3 {
-		return fmt.Sprintf("%d levels", len(h.Levels))
+	nLevels := len(h.Levels)
+	if nLevels < 2 || nLevels > 3 {
+		return fmt.Sprintf("%d levels", nLevels)
+	}
+	// the value of column j at a level is the value of the field that level is labelled with
+	vals := make([][]string, n)
+	for j := range vals {
+		for _, fld := range h.Levels {
+			v, ok := valsByName[j][fld.Name]
+			if !ok && fld.Name != "f2" {
+				return fmt.Sprintf("level labelled with unknown field %q", fld.Name)
+			}
+			vals[j] = append(vals[j], v)
+		}
 	}
 	var walk func(nodes []*benchproc.KeyHeaderNode, level, start, length int) string
 	walk = func(nodes []*benchproc.KeyHeaderNode, level, start, length int) string {
@@ -429,7 +474,7 @@ func c16CheckHeader(seq []int) string {
 			}
 			prev = nd.Value
 			pos += nd.Len
-			if level+1 < 3 {
+			if level+1 < nLevels {
 				if m := walk(nd.Children, level+1, nd.Start, nd.Len); m != "" {
 					return m
 				}
@@ -447,37 +492,39 @@ func c16CheckHeader(seq []int) string {
 
 func c16Headers(c *mc.Check, maxLen int) {
 	replay := func(raw json.RawMessage) string {
-		var seq []int
-		json.Unmarshal(raw, &seq)
+		var cs c16HeaderCase
+		json.Unmarshal(raw, &cs)
 		var msg string
-		if p := mc.Catch(func() { msg = c16CheckHeader(seq) }); p != "" {
+		if p := mc.Catch(func() { msg = c16CheckHeader(cs.Expr, cs.Seq) }); p != "" {
 			return p
 		}
 		return msg
 	}
-	f := c.Family("key-headers", fmt.Sprintf("every sequence of ≤%d keys over 3 fields × 2 values: each level is a partition of the columns into maximal contiguous runs of equal value under equal parents, children partition their parent, every column under exactly one node per level; non-trivial = ≥2 keys", maxLen), replay)
+	f := c.Family("key-headers", fmt.Sprintf("for each of the column projections %q (flattened field order equal to and different from the order in which the fields were created): every sequence of ≤%d keys over %d key kinds (two fields with 2 values, one with 2 values or missing): each level is labelled with its field and is a partition of the columns into maximal contiguous runs of equal value of THAT field under equal parents, children partition their parent, every column under exactly one node per level; non-trivial = ≥2 keys", c16HeaderExprs, maxLen, c16HeaderKinds), replay)
 	if c.Replaying() {
 		return
 	}
-	for n := 0; n <= maxLen; n++ {
-		mc.Sequences(8, n, func(m []int) {
-			seq := append([]int{}, m...)
-			var msg string
-			if p := mc.Catch(func() { msg = c16CheckHeader(seq) }); p != "" {
-				msg = p
-			}
-			nt := int64(0)
-			if n >= 2 {
-				nt = 1
-			}
-			f.Count(1, nt)
-			f.Outcome(fmt.Sprintf("n=%d", n), 1)
-			if msg != "" {
-				c.Fail(f, "key-header", seq, msg)
-			}
-		})
+	for ei := range c16HeaderExprs {
+		for n := 0; n <= maxLen; n++ {
+			mc.Sequences(c16HeaderKinds, n, func(m []int) {
+				seq := append([]int{}, m...)
+				var msg string
+				if p := mc.Catch(func() { msg = c16CheckHeader(ei, seq) }); p != "" {
+					msg = p
+				}
+				nt := int64(0)
+				if n >= 2 {
+					nt = 1
+				}
+				f.Count(1, nt)
+				f.Outcome(fmt.Sprintf("%s n=%d", c16HeaderExprs[ei], n), 1)
+				if msg != "" {
+					c.Fail(f, "key-header", c16HeaderCase{ei, seq}, msg)
+				}
+			})
+		}
 	}
-	f.Sample([]int{0, 1, 3, 3, 4})
+	f.Sample(c16HeaderCase{1, []int{0, 1, 3, 3, 4}})
 	f.Done()
 }
 
@@ -485,7 +532,7 @@ func TestVerifC16(t *testing.T) {
 	c := mc.NewCheck("C16")
 	c.Assume("layout oracle written from the documented contract of the text table (offsets per column, alignment, spans), not from its width-distribution algorithm")
 	c16Texttab(c)
-	c16Headers(c, mc.Pick(c, 5, 6))
+	c16Headers(c, mc.Pick(c, 4, 5))
 	c16TextVsCSV(c)
 	if code := c.Finish(); code != 0 {
 		os.Exit(code)
